@@ -72,9 +72,8 @@ def run(ck):
     for t in X.depth1_all(X.CONSTS):
         cases.append((t, []))
     n_d1 = len(cases)
-    d2 = list(X.depth2_pairs(X.CORE6))
-    if not thorough:
-        d2 = rng.sample(d2, 20000)
+    d2_all = list(X.depth2_pairs(X.CORE6))
+    d2 = d2_all if thorough else rng.sample(d2_all, 20000)
     cases += [(t, []) for t in d2]
     names = ["q_a", "q_b", "q_c", "q_d", "q_e"]
     n_rand = 60000 if thorough else 6000
@@ -199,12 +198,26 @@ def run(ck):
             for nd in d:
                 (before if rng.random() < 0.5 else after).append(nd)
             acases.append((t, before, after, full))
+    # precedence / associativity: EVERY pair of operators in every nesting, over the constant core,
+    # written with minimal parentheses (this is where a mis-ordered or mis-associated level shows)
+    for t in d2_all:
+        acases.append((t, [], [], False))
+    # unary stacks and ternary mixes up to depth 3
+    for o1 in X.UNOPS:
+        for o2 in X.UNOPS:
+            for o3 in X.BINOPS:
+                for c in (1, -1, -0x80000000):
+                    acases.append((('b', o3, ('u', o1, ('u', o2, ('n', c))), ('n', 2)), [], [], False))
+                    acases.append((('u', o1, ('b', o3, ('u', o2, ('n', c)), ('n', 7))), [], [], False))
     texts = [asm_program(t, b, a, rng, full) for (t, b, a, full) in acases]
     a_payloads = [asm_case("z80", text=tx) for tx in texts]
     # spec expectation: symbols resolve through the final table
     a_spec = run_cases(model, ["ceval\t%s\t%s" % (symtab_payload(b + a), X.prefix(t)) for (t, b, a, full) in acases])
     a_impl = run_cases(harness, a_payloads)
     ck.evaluations += len(acases)
+    # K for the parser model: tokens from the implementation's lexer -> extracted pexpr/assemble
+    a_lex = run_cases(harness, ["lex\tz80\t%s\t" % hx(tx) for tx in texts])
+    a_mod = run_cases(model, ["masm\tz80\t%s\t\t" % l for l in a_lex])
     for i, ((t, b, a, full), tx) in enumerate(zip(acases, texts)):
         r = AsmResult(a_impl[i])
         ck.nontriv("A" + tx)
@@ -217,6 +230,11 @@ def run(ck):
         if i % 4999 == 0:
             ck.sample({"mode": "asm", "source": tx, "impl": r.canon(), "expected": want})
         got = r.canon()
+        mc = ("OK " + a_mod[i].split("\t")[1]) if a_mod[i].startswith("OK") else ("DIAG" if a_mod[i].startswith("ERR") else "CRASH")
+        if got == want and mc != got and not any(v[2] for v in ck.violations):
+            ck.violation("correspondence parser/evaluator model vs implementation on %r: model %s impl %s" % (tx, mc, got),
+                         {"mode": "asm", "correspondence": "ExprParse.pexpr + Asm vs Assembler::expr", "source": tx,
+                          "harness_case": a_payloads[i]}, no_input=True)
         if got != want:
             def fails(tt, b=b, a=a, full=full):
                 txx = asm_program(tt, b, a, rng, full)
